@@ -156,9 +156,7 @@ def instrumented(case):
         r.run()
     except BaseException:
         pass
-    # run(until=<an event that fails>) aborts that event's callback loop (reading decision, DESIGN section 3):
-    # what such a plan does afterwards is outside the statements, so the oracles stand down on it
-    r.out_of_scope = any(n[0] == 'until-event-failed' for n in r.notes)
+    r.out_of_scope = False
     return r
 
 
@@ -234,9 +232,9 @@ def oracle_c04(case, lines, runner=None):
             waiting[rec[2]] = rec
         if rec[0] == 'resumed' and (not rec[3]) and type(rec[4]).__name__ == 'Interrupt':
             y = waiting.get(rec[2])
-            p = r.processed.get(y[3]) if y else None
-            if p is not None and p[0] < rec[1] and p[2] is False and type(p[3]).__name__ == 'Interrupt' and p[3].args == rec[4].args:
-                continue      # not an interrupt: the awaited event (a process that re-raised its Interrupt) failed with this exception
+            if y is not None and getattr(y[6], '_ok', True) is False and getattr(rec[4], '__cause__', None) is y[6]._value:
+                continue      # not an interrupt: the awaited event (a process that re-raised its Interrupt) failed with this
+                              # exception - the kernel throws a copy whose __cause__ is the awaited event's own exception
         if rec[0] == 'interrupt':
             _, seq, by, victim, cause, alive, selfi, raised, now = rec
             should = (not alive) or selfi
